@@ -52,6 +52,9 @@ def write_source(kind: str, table: dict, tmp: Path, row_group_size=None):
         from astropy.table import Table
 
         path = tmp / "input.fits"
+        # FITS has no signed-byte column type; astropy's table writer stores int8 as a logical
+        # column (values collapse to 0/1), so the file would not contain the generated values
+        cols = {k: (v.astype(np.int16) if v.dtype == np.int8 else v) for k, v in cols.items()}
         Table(cols).write(path, format="fits", overwrite=True)
         return path
     if kind == "hdf5":
